@@ -749,6 +749,9 @@ def eval_grammar(prop: str, rng: random.Random, gname: str, gtext: str, rules_as
         return None
 
 
+BUILTIN_STARTS = ["ASCII_DIGIT", "NEWLINE", "ANY", "EOI", "ASCII_ALPHA", "ASCII_HEX_DIGIT", "ASCII_ALPHANUMERIC"]
+
+
 def _eval_grammar(prop: str, rng: random.Random, gname: str, gtext: str, rules_ast, passes, cases, out):
     """cases: list of (start, input, k).  Appends driver lines to out['lines'] with callbacks
     in out['expect'] and records direct failures in out['direct']."""
@@ -770,8 +773,21 @@ def _eval_grammar(prop: str, rng: random.Random, gname: str, gtext: str, rules_a
     base = dict(group=gname, grammar=gtext, passes=passes)
     lines, expect = out["lines"], out["expect"]
     ups: set = set()
-    gline = "G " + P.ser_rules(md.p0.rules, ups)
-    oser = P.ser_rules(md.p1.rules, ups, also=set(P.referenced(md.p0.rules)))
+    # a built-in rule may be the start rule of parse() as well: two of them per grammar, on the first inputs of the grammar
+    extra_starts, extra_cases = [], []
+    # (interpreter modes only: a generated module's _RULE_MAP holds the grammar's rules and EOI, any other name is the
+    # documented KeyError)
+    if prop in ("C13", "C07") and not gname.startswith(("bundled:", "corpus:")) and cases:
+        extra_starts = [b for b in rng.sample(BUILTIN_STARTS, 2) if b in md.p0.rules]
+        seen_t = []
+        for _, t_, k_ in cases:
+            if (t_, k_) not in seen_t:
+                seen_t.append((t_, k_))
+            if len(seen_t) >= 4:
+                break
+        extra_cases = [(b, t_, k_) for b in extra_starts if b != "EOI" for t_, k_ in seen_t]
+    gline = "G " + P.ser_rules(md.p0.rules, ups, also=set(extra_starts))
+    oser = P.ser_rules(md.p1.rules, ups, also=set(P.referenced(md.p0.rules)) | set(extra_starts))
     for nm, pat in sorted(ups):
         lines.append(P.uset_line(nm, pat))
         expect.append(("setup", "ok", base))
@@ -809,6 +825,35 @@ def _eval_grammar(prop: str, rng: random.Random, gname: str, gtext: str, rules_a
                                       "observed": "; ".join(map(str, sorted(map(str, built - mine))))[:400], "differs": diff})
         except P.Unsupported:
             out["stats"]["front_crosscheck_skipped"] += 1
+    for start, text, k in extra_cases:
+        out["stats"]["cases"] += 1
+        case = {**base, "rule": start, "input": [ord(c) for c in text], "start_pos": k}
+        if True:
+            # a built-in rule as start rule, interpreter modes: Pairs or a PestParsingError whose position lies in the text and
+            # whose message renders, the same on a second call, and what the model answers
+            out["stats"]["builtin_start_cases"] += 1
+            for m in ("interp", "opt"):
+                r = run_struct(md.parse[m], start, text, k)
+                if m in plan["corr"]:
+                    lines.append(f"P {m} {start} {k} {FUEL} {P.enc_str(text)}")
+                    expect.append(("corr", enc_struct(r), {**case, "layer": m}))
+                if r[0] == "exc":
+                    out["direct"].append({**case, "what": f"{r[1]} escaped parse()", "mode": m})
+                elif run_struct(md.parse[m], start, text, k) != r:
+                    out["direct"].append({**case, "what": "repeating the call gave a different result", "mode": m})
+                elif r[0] == "fail":
+                    if not (r[1] == -1 or k <= r[1] <= len(text)):
+                        out["direct"].append({**case, "what": "furthest failure position outside [start_pos, len(input)]", "mode": m,
+                                              "observed": str(r[1])})
+                    try:
+                        md.parse[m](start, text, start_pos=k)
+                    except PestParsingError as e:
+                        try:
+                            str(e)
+                        except Exception as e2:  # noqa: BLE001
+                            out["direct"].append({**case, "what": f"str(PestParsingError) raised {type(e2).__name__}", "mode": m})
+                    except Exception:  # noqa: BLE001, S110
+                        pass
     for start, text, k in cases:
         out["stats"]["cases"] += 1
         case = {**base, "rule": start, "input": [ord(c) for c in text], "start_pos": k}
@@ -1270,7 +1315,7 @@ def _worker(job):
                 signal.alarm(0)
     if prop in ("C06", "C13", "C07", "C01") and shard < 4:
         ci_fold_oracle(prop, shard, out)
-    if prop in ("C08", "C01", "C02", "C06"):
+    if prop in ("C08", "C01", "C02", "C06", "C07"):
         # nested node tags around attempts that let a rule finish before they fail x every input over {a b z blank} to length 4
         inputs_tag = small_inputs("abz ", 5 if tier == "thorough" else 4)
         for _ in range(10 if tier == "thorough" else (6 if prop == "C08" else 3)):
